@@ -600,6 +600,12 @@ func main() {
 		os.Exit(selftest())
 	case "identitydigests":
 		identityDigestsCmd(os.Args[2:])
+	case "plainhist":
+		base, _ := strconv.ParseUint(os.Args[2], 10, 64)
+		from, _ := strconv.Atoi(os.Args[3])
+		to, _ := strconv.Atoi(os.Args[4])
+		reps, _ := strconv.Atoi(os.Args[5])
+		plainHist(base, from, to, reps, os.Args[6])
 	case "racesweep":
 		base, _ := strconv.ParseUint(os.Args[2], 10, 64)
 		rounds, _ := strconv.Atoi(os.Args[3])
